@@ -155,7 +155,11 @@ def configure(ignored, form, nbs=()):
         try:
             with open(os.path.join(d, 'nbdime_config.json'), 'w') as fh:
                 _json.dump({section: {c: False for c in by_config}}, fh)
-            os.environ.update({'JUPYTER_CONFIG_DIR': os.path.join(d, 'none'), 'JUPYTER_CONFIG_PATH': os.path.join(d, 'none'), 'HOME': d})
+            # the user's own jupyter config directory holds the template `nbdiff --config` prints (everything null, Ignore empty): it sets nothing
+            os.mkdir(os.path.join(d, 'user'))
+            with open(os.path.join(d, 'user', 'nbdime_config.json'), 'w') as fh:
+                _json.dump({section: dict({c: None for c in CATS}, Ignore={})}, fh)
+            os.environ.update({'JUPYTER_CONFIG_DIR': os.path.join(d, 'user'), 'JUPYTER_CONFIG_PATH': os.path.join(d, 'none'), 'HOME': d})
             os.environ.pop('JUPYTER_NO_CONFIG', None)
             os.chdir(d)
             if driver:
